@@ -59,6 +59,11 @@ CLAIMS = {
         'Tie: random histories of 3..30 calls over 4 handles (read of 1..3 inputs incl. malformed/missing ones, run with varying type/penalties/threads, write, compare, free, kalign()), all executed back to back in one process; every call is repeated in a fresh process with its slice and the result tokens (status + digest of records / rows / file bytes / score bits) must be equal; ledger: each history twice in a build without OpenMP whose allocator is interposed - live blocks after freeing every handle must be back to the start, and the second run must repeat the first.',
    note=TRUST + 'The premise reads_prepared_only and the claim that the per-call models take nothing but their argument objects are modelling claims tested by the history runs, not proved about the C. The slice used by the harness is a Python restatement of History.slice. The ledger theorem is at object granularity; block-level accounting is the interposed-allocator test (libgomp excluded by linking without OpenMP). Three defects found by this check were repaired (known_findings.json).',
    tech='Coq proof (frame + locality + induction over histories) + history-vs-fresh-process differential runs + interposed allocation ledger'),
+ 'C02': dict(
+   text='Theorems: (1) a static join check over fork-join task bodies is SOUND for every control path (conditionals taken or not, loops any number of times, early returns): if it accepts a body, no call happens and the body does not return while a child task may be outstanding (C02_check_is_sound, induction over the trace semantics); (2) the skeletons of recursive_aln, aln_runner, bisecting_kmeans, create_msa_tree, build_tree_kmeans, d_estimation - REGENERATED from the OpenMP pragmas of the source on every run - pass it with every call treated as critical (C02_*_joins_*), hence no merge starts before both child tasks are joined and no meetup before both DP halves (C02_no_merge_before_children, C02_no_meetup_before_halves); (3) for every series-parallel program whose parallel branches have commuting actions, EVERY linearisation reaches the state of the serial order (C02_sp_determinism); (4) instantiated to the progressive alignment of ANY guide tree with distinct node numbers and ANY per-merge computation with the footprint of do_align (reads cells a, b; writes cell c): every schedule yields the serial result and a merge follows all merges below it (C02_schedules, C02_merge_after_children). '
+        'Tie: the skeleton is a translation of the current source; the footprints are hand-modelled, so every logged run is validated against the model\'s happens-before constraints on the hook trace (MERGE_BEGIN/END, FWD/BWD/MEET BEGIN/END per aln_mem); byte identity of the result for n_threads 1,2,3,8,16,64, injected delays that permute task completion, OMP_WAIT_POLICY/OMP_DYNAMIC variations and the build without OpenMP/AVX2, on inputs reaching every parallel region (>= 100 sequences, >= 500 columns).',
+   note=TRUST + 'Outside every theorem: that libgomp implements task/taskwait/static for as specified; data races below the granularity of the modelled actions (two tasks sharing a scratch buffer the model keeps private) - these are what the trace validation and identity runs are for. The thread-count independence of the functional model is by construction (kalign_run_model has no thread argument); the k-means split tasks and the omp-for distance matrix are covered by the join theorems and the identity runs, their footprints are not modelled. C02_schedules uses functional_extensionality_dep (stores are functions).',
+   tech='Coq proof (sound join check over regenerated OpenMP skeleton + series-parallel determinism for arbitrary guide trees) + hook-trace validation + schedule/thread-count identity runs'),
  'C11': dict(
    text='PARTIAL. The full statements (bpm_block = sed on the first 1024 pattern symbols; bpm/bpm_256 = sed up to 63/255) are written in Properties_C11.v as Definitions, not yet theorems; proved so far are only basic facts of the specification. '
         'What decides the property on every run: literal executable models of bpm_block, bpm and bpm_256 (lane-level add256 and 256-bit shift included) are compared with the implementation on both the AVX2 and the scalar build, and the implementation is compared with the extracted specification sed, exhaustively for alphabets {2,3} and small lengths (17k cases) and at random around every multiple of 64 up to the 1024 cap.',
